@@ -22,6 +22,21 @@ ScriptsL == ScriptsQ
 ProgramsL == { <<"close", "tx">>, <<"tx">> }
 ProgramsR == { <<"close", "tx">>, <<"tx", "close">> }
 
+(* hand-picked scripts for the quick tier *)
+R1 == CHOOSE i \in Reqs : TRUE
+I(t) == Item(t, Unknown)
+ScriptsT == { <<>>, <<I("close")>>, <<I("streamerr")>>, <<I("eof")>>, <<I("herr")>>, <<I("stanza"), I("eof")>>,
+              <<Item("resp", R1), I("close")>>, <<I("get"), I("close")>>, <<Item("resp", R1), Item("resp", R1)>>,
+              <<I("resp"), I("close")>>, <<I("get"), Item("resp", R1)>>, <<Item("resp", R1), I("streamerr")>> }
+(* two requesters: responses for both *)
+R2 == IF Cardinality(Reqs) > 1 THEN CHOOSE i \in Reqs : i # R1 ELSE R1
+ScriptsT2 == ScriptsT \cup { <<Item("resp", R2), Item("resp", R1)>>, <<Item("resp", R2), I("close")>>,
+                             <<Item("resp", R1), Item("resp", R2), I("streamerr")>> }
+ScriptsLT == { <<Item("resp", R1), I("close")>>, <<I("get"), I("streamerr")>>, <<I("close")>>, <<I("herr")>>,
+               <<I("resp"), I("close")>> }
+ScriptsLQ == { <<Item("resp", R1), I("close")>>, <<I("get"), I("streamerr")>> }
+ProgramsLT == { <<"close", "tx">> }
+
 ProgramsMC == { <<>>, <<"tx">>, <<"close">>, <<"tx", "close">>, <<"close", "tx">>, <<"close", "close">>, <<"updaddr">> }
 ProgramsDl == ProgramsMC \cup { <<"deadline", "close">>, <<"deadline">>, <<"updaddr", "tx">> }
 ProgramsQ == { <<"close", "tx">>, <<"updaddr", "tx">> }
